@@ -13,6 +13,7 @@
    harness and the monitor). *)
 From Coq Require Import List ZArith Bool.
 From Verif Require Import C15.Model C15.Spec C15.Proofs C15.Witness C15.Faults C15.FaultsProofs.
+From Verif Require Import C15.Keys C15.KeysProofs.
 Import ListNotations.
 Open Scope Z_scope.
 
@@ -459,3 +460,145 @@ Example C15_fw_restart :
   Forall (fun fb => writes fb = false) [nth 1 fw_witness (fw_flush [] false false)] /\
   b_restart (fb_batch (fw_flush [demo_rec [97; 47; 49] 500 1700000005123 []] true false)) = true.
 Proof. vm_compute. repeat split; try reflexivity. repeat constructor. Qed.
+
+(* ====================================================================== *)
+(* 7. The persisted key (Keys.v).
+
+   Nothing between the access log and the state file normalises a key: method,
+   URL and consumer tag are held in memory byte for byte ("get", "GET" and
+   " GET" are three endpoints) and the entry of the state file is named
+   Method ++ ":::" ++ URL, read back by splitting at the FIRST ":::".  The
+   round trip of section 3 rests on that function being injective on the keys
+   the memory holds; this is proved here, not assumed. *)
+
+(* pkey is injective on keys whose method has no ':' — whatever the URL (it may
+   contain ":::" itself, start or end with ':') — and rkey inverts it.  Every key
+   of a reachable state is such a key, so the file written from a reachable
+   state has exactly one entry per in-memory entry (endpoints, and endpoints
+   under every consumer tag; the tag itself is a JSON object key, verbatim),
+   under pairwise distinct names. *)
+Theorem C15_persisted_key_injective :
+  (forall k1 k2, nocolon (fst k1) -> nocolon (fst k2) -> pkey k1 = pkey k2 -> k1 = k2) /\
+  (forall k, nocolon (fst k) -> rkey (pkey k) = k) /\
+  (forall bs, batches_ok bs ->
+     let s := run bs in
+     (forall k, holds_key s k -> nocolon (fst k)) /\
+     NoDup (map fst (pE (persist s))) /\ NoDup (map fst (pC (persist s))) /\
+     length (pE (persist s)) = length (sE s) /\ length (pC (persist s)) = length (sC s)).
+Proof.
+  split; [exact pkey_inj|]. split; [exact rkey_pkey|].
+  intros bs H. cbn zeta. pose proof (wf_run bs H) as W.
+  destruct (persist_entries (run bs) W) as (PE & PC & NE & NC).
+  split; [intros k Hk; exact (wf_holds_nocolon _ k W Hk)|].
+  split; [exact NE|]. split; [exact NC|].
+  rewrite PE, PC, !map_length. split; reflexivity.
+Qed.
+Print Assumptions C15_persisted_key_injective.
+
+(* The round trip holds for ANY way of naming the entries of the file that can
+   be undone on the keys the state holds (distinct keys in every map): all
+   keys, counts, status counts and sums come back, the time fields floored to
+   the second.  [persist] / [restore] are the instance pkey / rkey. *)
+Theorem C15_persist_roundtrip_any_invertible_key : forall pk rk s,
+  nodup_state s -> (forall k, holds_key s k -> rk (pk k) = k) ->
+  restore_with rk (persist_with pk s) = fl_state s.
+Proof. exact restore_persist_with. Qed.
+Print Assumptions C15_persist_roundtrip_any_invertible_key.
+
+Example C15_persist_is_the_pkey_instance : forall s,
+  persist_with pkey s = persist s /\ forall p, restore_with rkey p = restore p.
+Proof. intros s. split; [reflexivity | intros p; reflexivity]. Qed.
+
+(* Conversely: ANY naming that gives two distinct in-memory endpoints one entry
+   of the file loses an endpoint and — request counts being positive, as they
+   are in every reachable state — requests, WHATEVER the reader does: after the
+   restart the endpoint map has fewer entries and a smaller total.  The same
+   for two endpoints under one consumer tag in the per-consumer statistics. *)
+Theorem C15_colliding_persisted_keys_lose_traffic : forall pk rk s,
+  counts_positive s ->
+  (forall k1 k2, In k1 (map fst (sE s)) -> In k2 (map fst (sE s)) -> k1 <> k2 -> pk k1 = pk k2 ->
+     count_where everywhere (sE (restore_with rk (persist_with pk s)))
+       < count_where everywhere (sE s) /\
+     (length (sE (restore_with rk (persist_with pk s))) < length (sE s))%nat) /\
+  (forall c k1 k2, In (c, k1) (map fst (sC s)) -> In (c, k2) (map fst (sC s)) -> k1 <> k2 ->
+     pk k1 = pk k2 ->
+     count_where everywhere (sC (restore_with rk (persist_with pk s)))
+       < count_where everywhere (sC s) /\
+     (length (sC (restore_with rk (persist_with pk s))) < length (sC s))%nat).
+Proof.
+  intros pk rk s [PE PC]. split.
+  - intros k1 k2. now apply collision_loses_E.
+  - intros c k1 k2. now apply collision_loses_C.
+Qed.
+Print Assumptions C15_colliding_persisted_keys_lose_traffic.
+
+Theorem C15_reachable_counts_positive : forall bs, batches_ok bs -> counts_positive (run bs).
+Proof. exact counts_positive_run. Qed.
+Print Assumptions C15_reachable_counts_positive.
+
+(* "The totals survive the write/read round trip" for a given naming of the
+   entries, over the reachable states. *)
+Definition C15_totals_survive_restart_with (pk : key -> str) (rk : str -> key) : Prop :=
+  forall bs, batches_ok bs ->
+    let s := run bs in let s' := restore_with rk (persist_with pk s) in
+    count_where everywhere (sE s') = count_where everywhere (sE s) /\
+    count_where everywhere (sC s') = count_where everywhere (sC s) /\
+    sES s' = sES s /\ sCS s' = sCS s.
+
+(* the code as it is *)
+Theorem C15_totals_survive_restart : C15_totals_survive_restart_with pkey rkey.
+Proof.
+  intros bs H. cbn zeta. pose proof (wf_run bs H) as W.
+  change (restore_with rkey (persist_with pkey (run bs))) with (restore (persist (run bs))).
+  rewrite (restore_persist _ W).
+  destruct (fl_state_totals (run bs)) as (A & B & _).
+  cbn [fl_state sES sCS]. repeat apply conj; try reflexivity.
+  - rewrite !count_where_psum. unfold agg_total in A. rewrite A.
+    now destruct (psum acomb everywhere (sE (run bs))).
+  - rewrite !count_where_psum. unfold agg_total in B. rewrite B.
+    now destruct (psum acomb everywhere (sC (run bs))).
+Qed.
+Print Assumptions C15_totals_survive_restart.
+
+(* the variant that writes the method in upper case: one URL requested as
+   "get" (2 records) and as "GET" (3 records) — 5 requests before the restart,
+   3 after it (the list order of the model makes "GET" the survivor; in the
+   code Go's map order decides, one of the two is lost either way) *)
+Theorem C15_totals_survive_restart_uppercased_method_refuted :
+  ~ C15_totals_survive_restart_with pkey_upper rkey.
+Proof.
+  intros F.
+  assert (O : batches_ok mixed_case) by (vm_compute; repeat constructor; discriminate).
+  destruct (F mixed_case O) as (A & _).
+  vm_compute in A. discriminate A.
+Qed.
+Print Assumptions C15_totals_survive_restart_uppercased_method_refuted.
+
+(* Non-vacuity: the mixed-case history is a reachable state that holds the two
+   spellings as two endpoints (also under the consumer tag); the hypotheses of
+   the collision theorem hold for the upper-casing variant and not for pkey;
+   with pkey all 5 requests and both endpoints come back. *)
+Example C15_mixed_case_methods :
+  map fst (sE (run mixed_case)) = [(mc_get, [97; 47; 49]); (mc_GET, [97; 47; 49])] /\
+  map (fun e => a_count (snd e)) (sE (run mixed_case)) = [2; 3] /\
+  pkey_upper (mc_get, [97; 47; 49]) = pkey_upper (mc_GET, [97; 47; 49]) /\
+  pkey (mc_get, [97; 47; 49]) <> pkey (mc_GET, [97; 47; 49]) /\
+  count_where everywhere (sE (restore (persist (run mixed_case)))) = 5 /\
+  length (sE (restore (persist (run mixed_case)))) = 2%nat /\
+  count_where everywhere (sE (restore_with rkey (persist_with pkey_upper (run mixed_case)))) = 3 /\
+  length (sE (restore_with rkey (persist_with pkey_upper (run mixed_case)))) = 1%nat /\
+  count_where everywhere (sC (restore_with rkey (persist_with pkey_upper (run mixed_case)))) = 3.
+Proof. vm_compute. repeat split; try reflexivity. discriminate. Qed.
+
+(* a URL that contains, starts with or ends with the delimiter, next to a
+   plain one: six endpoints before and after *)
+Example C15_delimiter_in_urls_roundtrip :
+  let u := [104; 47; 97] in
+  let s := mkState [((mc_GET, u ++ delim ++ [98]), mkAgg 1 0 0 0 0);
+                    ((mc_GET, u ++ delim ++ [66]), mkAgg 2 0 0 0 0);
+                    ((mc_GET, delim ++ u), mkAgg 3 0 0 0 0);
+                    ((mc_GET, u ++ delim), mkAgg 4 0 0 0 0);
+                    ((mc_GET, 58 :: u), mkAgg 5 0 0 0 0);
+                    ((mc_GET, u), mkAgg 6 0 0 0 0)] [] [] [] [] in
+  restore (persist s) = s /\ length (sE s) = 6%nat.
+Proof. vm_compute. split; reflexivity. Qed.
